@@ -335,6 +335,17 @@ def run(ctx):
                  why or 'an assertion in the blend arithmetic that is not shown to hold for every backdrop, source and opacity'), s_.span,
                  key=ctx.key(s_.body.name, 'W5', s_.kind, ''))
     normal_divisions(ctx, 'W4')
+    import C06 as _c06b
+    _c06b.background_flag_test(ctx, 'W6')
+    # the layer and cel opacities the laws quantify over are the bytes the file stores: header and layer chunk are read as the spec
+    # table says (a header flag that suddenly matters - seed C17-m replaced layer opacities by 255 under `flags != 1` - shows as a layout
+    # difference), and the stored fields have a single origin
+    import layout as _ly
+    import spec as _SPc
+    _spec = _SPc.load_spec()
+    _ly.check_layout(ctx, _spec, 'asefile::parse::read_aseprite', 'HEADER', rule='W6')
+    _bl, _ = _ly.check_layout(ctx, _spec, 'asefile::layer::parse_chunk', 'LAYER', rule='W6')
+    _ly.check_stores(ctx, _spec, 'asefile::layer::parse_chunk', 'LAYER', _bl, rule='W6')
     # W6: the laws are stated over (layer opacity, cel opacity); both rasterisers must hand their product to the blend function
     render.opacity_and_mode(ctx, rule_o='W6', rule_m=None)
     # and no pixel is exempted from the blend function by anything but the canvas clip (an 'identity shortcut' in the rasteriser
